@@ -53,7 +53,16 @@ P1 == P0
       \cup {MCall(Id("a"), "foo", <<Id("b")>>), MCall(Id("a"), "concat", <<Id("b"), Id("a")>>),
             CallE(MemberE(Id("a"), "concat"), <<Arg(Id("b"), TRUE), Arg(Str("s"), FALSE)>>),
             OptN(TRUE, CallE(MemberE(Id("a"), "trim"), <<>>)),
-            OptMCall(MemberE(OptN(TRUE, MemberE(Id("a"), "x")), "y"), "trim", <<>>)}
+            OptMCall(MemberE(OptN(TRUE, MemberE(Id("a"), "x")), "y"), "trim", <<>>),
+            \* shapes behind later repairs and seeded changes
+            CallE(MemberE(MemberE(Call0("f"), "concat"), "call"), <<Arg(Call0("g"), FALSE), Arg(Id("b"), FALSE)>>),   \* f().concat.call(g(), b)
+            CallE(MemberE(MemberE(MemberE(Id("o"), "x"), "concat"), "call"), <<Arg(Id("a"), FALSE), Arg(Id("b"), FALSE)>>), \* o.x.concat.call(a, b)
+            CallE(MemberE(MemberE(MemberE(Id("String"), "prototype"), "concat"), "apply"),
+                  <<Arg(Id("a"), FALSE), Arg(RN("ArrayExpression", "", "", <<L(<<Arg(Id("b"), FALSE)>>)>>), FALSE), Arg(Call0("f"), FALSE)>>),
+            OptMCall(MemberE(Id("String"), "prototype"), "trim", <<>>),                                               \* String.prototype?.trim()
+            OptN(FALSE, CallE(OptN(FALSE, MemberE(OptN(TRUE, CallE(MemberE(Id("a"), "b"), <<Arg(Id("b"), FALSE)>>)), "trim")), <<>>)), \* a.b?.(b).trim()
+            RN("UnaryExpression", "delete", "", <<MemberE(MCall(Id("a"), "trim", <<>>), "x")>>),
+            CallE(MemberE(Id("a"), "concat"), <<Arg(RN("ArrayExpression", "", "", <<L(<<Arg(Id("b"), FALSE), Arg(Str("s"), FALSE)>>)>>), TRUE)>>)}  \* a.concat(...[b, 's'])
 
 (* operands of the operator layer: a sample of P1 that keeps the product small *)
 Ops == {Id("a"), Id("b"), Str("s"), Num1, Call0("f"), MCall(Id("a"), "trim", <<>>), OptMCall(Id("a"), "trim", <<>>),
